@@ -5,6 +5,7 @@
 import Lean.Data.Json
 import SqlglotModel.Model.Cursor
 import SqlglotModel.Model.ScanProgress
+import SqlglotModel.Model.FindParser
 
 open Lean (Json)
 open SqlglotModel.Cursor
@@ -135,6 +136,15 @@ def handle (toks : List Tok) (line : String) : Except String (List Tok × String
     | "csv" => pure (toks, showRes (csvS toks (← jNat (← j.getObjVal? "sep")) (toks.length + 1) (tableP es) s0))
     | "wrapped" => pure (toks, showRes (wrappedS toks (tableP es) (← (← j.getObjVal? "optional").getBool?) s0))
     | k => throw ("kind " ++ k)
+  | "find" =>
+    let keys ← (← (← j.getObjVal? "keys").getArr?).toList.mapM (·.getStr?)
+    let ts ← (← (← j.getObjVal? "toks").getArr?).toList.mapM (·.getStr?)
+    let r := SqlglotModel.FindParser.findParser (SqlglotModel.FindParser.splitOn ' ') (keys.map String.toList) (ts.map String.toList)
+    match r with
+    | .found k => pure (toks, "found " ++ (Json.str (String.ofList k)).compress)
+    | .notFound => pure (toks, "none")
+    | .keyError k => pure (toks, "keyerror " ++ (Json.str (String.ofList k)).compress)
+    | .indexError => pure (toks, "indexerror")
   | "scan" =>
     let size ← jNat (← j.getObjVal? "size")
     let start ← jNat (← j.getObjVal? "start")
